@@ -14,7 +14,7 @@
    objects remain) and the real reader are tied by differential execution on every cut offset, not by a theorem. *)
 From Coq Require Import List ZArith Lia.
 From VB Require Import PrefixFacts.
-From VB Require Import Base IR Sem FileModel FileDefs StreamRT PrefixEq.
+From VB Require Import Base IR Sem FileModel FileDefs StreamRT PrefixEq UnknownEq.
 From VB Require Import Classes Consts Common.
 Import ListNotations.
 
@@ -45,6 +45,15 @@ Theorem C08_stream_prefix : forall pre o part lost, Forall wobj_ok pre -> wobj_o
     (Forall2 same_obj pre ds \/ Forall2 same_obj (pre ++ [o]) ds).
 Proof. exact stream_prefix. Qed.
 Print Assumptions C08_stream_prefix.
+
+(* ... also when unknown-type objects stand between the known ones before the cut (C09_unknown_objects_skipped) *)
+Theorem C08_mixed_stream_prefix : forall pre o part lost fuel i acc count, Forall item_ok pre -> wobj_ok o ->
+  w_bytes o = part ++ lost -> lost <> [] ->
+  StreamFacts.nstream i -> s_good i = true -> s_after i = concat (map item_bytes pre) ++ part -> (length pre + 1 < fuel)%nat ->
+  exists ds, fst (fst (obj_loop cs scan_p default_cap factory_table C_ohb fid_objectSize fid_objectType fuel i acc count)) = acc ++ ds /\
+    (Forall2 same_obj (knowns pre) ds \/ Forall2 same_obj (knowns pre ++ [o]) ds).
+Proof. exact mixed_prefix_gen. Qed.
+Print Assumptions C08_mixed_stream_prefix.
 
 (* non-vacuity: a CanMessage (a well-formed written object: StreamRT.ex_can_ok) followed by the first 0, 20 or 47 bytes of
    another one — exactly one object is delivered *)
